@@ -11,6 +11,7 @@ import (
 	"verif/harness/internal/core"
 	"verif/harness/internal/dml"
 	"verif/harness/internal/drv"
+	"verif/harness/internal/rv"
 )
 
 func init() {
@@ -33,6 +34,7 @@ func init() {
 const (
 	c05SigReplaceOrder = "replace:order-of-appended-unmatched-rows"
 	c05SigReplaceDup   = "replace:duplicate-key-in-values:row-whose-key-matches-an-existing-record-is-appended"
+	c05SigEmptyCellLost = "commit:single-column-file-table:record-with-empty-cell-lost-on-reload"
 	c05SigStdinLock    = "stdin:data-changing-statement-after-an-earlier-one-in-the-transaction:lock-wait-timeout"
 )
 
@@ -251,6 +253,9 @@ func compareStep(op dml.Op, pre *dml.State, out *dml.Outcome, res drv.Result, ob
 	if failed {
 		// whatever the reason, a failed statement changes nothing (C08 states that; C05 needs it to know the state)
 		if tab, d, _ := dml.CompareState(obs, pre, "", 0); d != dml.Same {
+			if c05EmptyCellRecordLost(obs, pre, tab) {
+				return stepResult{sig: c05SigEmptyCellLost, msg: fmt.Sprintf("table %s, committed with one column, comes back from its file without the records whose only cell is NULL or empty (seen after a statement that failed)\n    csvq:\n      %s\n    before:\n      %s", tab, showObs(obs), showState(pre))}
+			}
 			return bad("failed-statement-changed-a-table", fmt.Sprintf("after the error %q table %s differs (%s)\n    csvq:\n      %s\n    before:\n      %s", res.Err, tab, d, showObs(obs), showState(pre)))
 		}
 		return stepResult{final: pre}
@@ -279,6 +284,12 @@ func compareStep(op dml.Op, pre *dml.State, out *dml.Outcome, res drv.Result, ob
 		}
 		if !changes {
 			what = "table-not-named-by-the-statement-changed"
+		}
+		if c05EmptyCellRecordLost(obs, out.Next, firstTab) {
+			// the known defect of the CSV reader of the go-text dependency (C02: A:csv-single-column-empty-record-dropped-on-load)
+			// seen from here: a file table reduced to ONE column is committed with an empty line for a NULL / empty cell,
+			// and the reload after the COMMIT skips that line
+			return stepResult{sig: c05SigEmptyCellLost, msg: fmt.Sprintf("table %s, committed with one column, comes back from its file without the records whose only cell is NULL or empty\n    csvq:\n      %s\n    reference:\n      %s", firstTab, showObs(obs), showState(out.Next))}
 		}
 		return bad(what, fmt.Sprintf("table %s differs (%s)\n    csvq:\n      %s\n    reference:\n      %s", firstTab, firstDiff, showObs(obs), showState(out.Next)))
 	}
@@ -521,4 +532,44 @@ func c05Replay(c *core.Ctx, payload json.RawMessage) {
 		r.verbose = i == 0
 		r.transition(path, st, op, &out)
 	}
+}
+
+
+// c05EmptyCellRecordLost: the observed table `name` has one column and equals the reference table without its records whose
+// only cell is NULL or the empty text (at least one such record exists).
+func c05EmptyCellRecordLost(obs []dml.TabSnap, ref *dml.State, name string) bool {
+	rt := ref.Tab(name)
+	if rt == nil || len(rt.Cols) != 1 || rt.Kind != dml.File {
+		return false
+	}
+	var ot *dml.TabSnap
+	for i := range obs {
+		if strings.EqualFold(obs[i].Name, name) {
+			ot = &obs[i]
+		}
+	}
+	if ot == nil || len(ot.Cols) != 1 {
+		return false
+	}
+	var kept [][]rv.V
+	lost := 0
+	for _, r := range rt.Rows {
+		if len(r) == 1 && (r[0].K == rv.Null || (r[0].K == rv.Str && r[0].S == "")) {
+			lost++
+			continue
+		}
+		kept = append(kept, r)
+	}
+	if lost == 0 || len(kept) != len(ot.Rows) {
+		return false
+	}
+	for i := range kept {
+		if len(ot.Rows[i]) != 1 || !rv.SameValue(kept[i][0], ot.Rows[i][0]) {
+			// a file gives texts back: compare by text
+			if kept[i][0].Key() != ot.Rows[i][0].Key() && fmt.Sprint(kept[i][0].Primary()) != fmt.Sprint(ot.Rows[i][0].Primary()) {
+				return false
+			}
+		}
+	}
+	return true
 }
